@@ -57,11 +57,11 @@ type c15Set struct {
 }
 
 var c15Sets = map[string]c15Set{
-	"V(1,1,1)":   {"V(1,1,1)", []string{"hv1", "hv2", "hv3"}, []int64{1, 1, 1}},
-	"V(3,1,1)":   {"V(3,1,1)", []string{"hv1", "hv2", "hv3"}, []int64{3, 1, 1}},
-	"V(2,1,1,1)": {"V(2,1,1,1)", []string{"hv1", "hv2", "hv3", "hv4"}, []int64{2, 1, 1, 1}},
+	"V(1,1,1)":    {"V(1,1,1)", []string{"hv1", "hv2", "hv3"}, []int64{1, 1, 1}},
+	"V(3,1,1)":    {"V(3,1,1)", []string{"hv1", "hv2", "hv3"}, []int64{3, 1, 1}},
+	"V(2,1,1,1)":  {"V(2,1,1,1)", []string{"hv1", "hv2", "hv3", "hv4"}, []int64{2, 1, 1, 1}},
 	"V(100,10,1)": {"V(100,10,1)", []string{"hv1", "hv2", "hv3"}, []int64{100, 10, 1}}, // C18's set
-	"V'":         {"V'", []string{"hw1", "hw2", "hw3"}, []int64{1, 1, 1}},
+	"V'":          {"V'", []string{"hw1", "hw2", "hw3"}, []int64{1, 1, 1}},
 }
 
 func (s c15Set) proto() *cmtproto.ValidatorSet {
